@@ -26,11 +26,24 @@ SITES = []
 RULE = ("1-4 series per call, each 2-10 valid values on the dyadic grid k/2 (|k|<=6) drawn as random / exactly-zero-mean / all-zero / constant / "
         "two-valued (ties) / alternating, integer-dtype series, the same series in several units (x1e-6..x1e6) in one call, NaN cells inserted at random positions (series of different valid length in one call), the h "
         "coordinate drawn from 1..len-1 (a sweep entry uses every h below the length), method in {HLN,HG}, distribution in {normal,t}, "
-        "confidence level in {0.5,0.8,0.9,0.95,0.99}, ts_dim first or second; a case is distinct by (series, h, method, distribution, level) and "
+        "confidence level in {0.5,0.8,0.9,0.95,0.99}, ts_dim first or second; each optional argument whose value is the documented default (HG, 0.95, normal) "
+        "is left out of the call in half of the cases and all eight left-out subsets are run on 5 (60 thorough) inputs; unsigned-integer storage; one infinite "
+        "value in one series of an HLN call; the input array is compared with a copy after every call; a case is distinct by (series, h, method, distribution, level) and "
         "non-trivial when at least one series has a finite statistic")
 ASSUMPTIONS = ["math.sqrt, scipy.stats.norm/t (cdf, ppf), numpy.fft and scipy.optimize.least_squares are evaluated by the host on the model's exact outputs",
                "binary64 cancellation in V_hat is bounded by a condition-number dependent tolerance (1e-9 + 1e-13 * n * sum|gamma_k| / |V_hat n^2|)"]
 TRUSTED = ["host evaluation of sqrt / norm.cdf / t.cdf / ppf / least_squares on model outputs (C19)"]
+
+# counters every complete run (quick or thorough, any seed) must have incremented: one per predicate family / input class
+EXPECT_COUNTS = [
+    "left_out:method", "left_out:confidence_level", "left_out:statistic_distribution", "defaults_matrix:left_out=0", "defaults_matrix:left_out=1",
+    "defaults_matrix:left_out=2", "defaults_matrix:left_out=3", "infinite_member", "input_unchanged", "with_nan", "ts_dim_second", "h_as_float",
+    "method:HG", "method:HLN", "dist:normal", "dist:t",
+    "kind:all_zero", "kind:alternating", "kind:constant", "kind:random", "kind:small", "kind:two_valued", "kind:zero_mean", "kind:int_dtype", "kind:units:",
+    "dtype:int", "dtype:uint", "stat:finite", "stat:nan", "stat:zero", "ci:brackets", "ci:zero_mean_nan", "boundary:vhat_exactly_zero",
+    "relation:negation", "relation:scale", "relation:independence", "sweep:all_h", "tiny_exhaustive:len=", "units_call",
+    "acovf:len<=10", "acovf:len=", "err",
+] + ["malformed:" + k for k in ("h_frac", "h_zero", "h_neg", "h_ge_len", "h_eq_len", "method", "dist", "cl0", "cl1", "clneg", "h_nan")]
 
 FINDING = "dm-ci-zero-mean"
 LEVELS = [0.5, 0.8, 0.9, 0.95, 0.99]
@@ -210,13 +223,49 @@ def vhat_condition(row, h):
 # ------------------------------------------------------------------------------------------
 # one call: correspondence + property predicates
 # ------------------------------------------------------------------------------------------
-def check_call(ctx, rows, hs, method, cl, dist, transpose=False, h_float=False, kinds=None, sample=False, dtype=None):
+DEFAULTS = {"method": "HG", "confidence_level": 0.95, "statistic_distribution": "normal"}       # as documented
+
+
+def rand_left_out(rng, method, cl, dist):
+    """the optional arguments that are not written in the call: only one whose intended value is the documented default can be left
+    out (method="HG", confidence_level=0.95, statistic_distribution="normal"), and is in half of the cases"""
+    vals = {"method": method, "confidence_level": cl, "statistic_distribution": dist}
+    return sorted(k for k, v in vals.items() if v == DEFAULTS[k] and rng.random() < 0.5)
+
+
+def dm_kwargs(method, cl, dist, left_out=()):
+    vals = {"method": method, "confidence_level": cl, "statistic_distribution": dist}
+    for k in left_out:
+        assert vals[k] == DEFAULTS[k], "only a default can be left out"
+    return {k: v for k, v in vals.items() if k not in left_out}
+
+
+def same_input(before, after):
+    return before.dims == after.dims and before.dtype == after.dtype and np.array_equal(before.values, after.values, equal_nan=before.dtype.kind == "f") \
+        and all(np.array_equal(before[c].values, after[c].values, equal_nan=before[c].dtype.kind == "f") for c in before.coords)
+
+
+def check_call(ctx, rows, hs, method, cl, dist, transpose=False, h_float=False, kinds=None, sample=False, dtype=None, left_out=None):
     rng = ctx.rng
     da = build_da(rng, rows, hs, transpose, h_float, dtype)
-    impl = core.call_impl(dm(), da, "lead", "h", method=method, confidence_level=cl, statistic_distribution=dist)
+    if left_out is None:
+        left_out = rand_left_out(rng, method, cl, dist)
+    for k in left_out:
+        ctx.count("left_out:" + k)
+    if any(math.isnan(x) for r in rows for x in r if isinstance(x, float)):
+        ctx.count("with_nan")
+    if transpose:
+        ctx.count("ts_dim_second")
+    if h_float:
+        ctx.count("h_as_float")
+    before = da.copy(deep=True)
+    impl = core.call_impl(dm(), da, "lead", "h", **dm_kwargs(method, cl, dist, left_out))
     m = model_call(ctx, rows, hs, method, Fraction(cl), dist)
     desc = {"fn": "diebold_mariano", "series": [[None if math.isnan(x) else x for x in r] for r in rows], "h": list(hs), "method": method,
-            "confidence_level": cl, "statistic_distribution": dist, "dtype": dtype or "float64"}
+            "confidence_level": cl, "statistic_distribution": dist, "dtype": dtype or "float64", "arguments_left_out": list(left_out)}
+    if not same_input(before, da):
+        ctx.violation("diebold_mariano modifies the array it is given", desc, before.values.tolist(), da.values.tolist())
+    ctx.count("input_unchanged")
     if core.is_err(m) or impl[0] == "err":
         ok = impl[0] == "err" and core.is_err(m) and impl[1] == m
         ctx.case(desc, False)
@@ -324,14 +373,16 @@ def relations(ctx, rows, hs, method, cl, dist, dtype=None):
     """sign symmetry, scale invariance and series independence on the implementation"""
     rng = ctx.rng
     f = dm()
-    kw = dict(method=method, confidence_level=cl, statistic_distribution=dist)
+    kw = dm_kwargs(method, cl, dist, rand_left_out(rng, method, cl, dist))
     base = core.call_impl(f, build_da(rng, rows, hs, dtype=dtype), "lead", "h", **kw)
     if base[0] != "ok":
         return
     b = base[1]
     desc = {"series": [[None if math.isnan(x) else x for x in r] for r in rows], "h": list(hs), "method": method, "confidence_level": cl,
-            "statistic_distribution": dist, "dtype": dtype or "float64"}
-    neg = core.call_impl(f, build_da(rng, [[-x for x in r] for r in rows], hs, dtype=dtype), "lead", "h", **kw)
+            "statistic_distribution": dist, "dtype": dtype or "float64", "arguments_left_out": sorted(set(DEFAULTS) - set(kw))}
+    # the negated series of an unsigned-integer array is stored as a signed one (the values themselves cannot be negated in place)
+    ndtype = dtype.replace("uint", "int") if dtype and dtype.startswith("uint") and dtype != "uint64" else ("int64" if dtype == "uint64" else dtype)
+    neg = core.call_impl(f, build_da(rng, [[-x for x in r] for r in rows], hs, dtype=ndtype), "lead", "h", **kw)
     if neg[0] != "ok":
         ctx.violation("negated series raises", desc, "ok", neg[1])
         return
@@ -396,12 +447,15 @@ def acovf_cases(ctx, n):
         ctx.count("acovf:len=%d" % ln if ln > 10 else "acovf:len<=10")
 
 
+MALFORMED_KINDS = ["h_frac", "h_zero", "h_neg", "h_ge_len", "h_eq_len", "method", "dist", "cl0", "cl1", "clneg", "h_nan"]
+
+
 def malformed(ctx, n):
     rng = ctx.rng
-    for _ in range(n):
+    for idx in range(n):
         rows, hs, kinds = gen_call(ctx)
         method, cl, dist = "HLN", 0.9, "normal"
-        kind = rng.choice(["h_frac", "h_zero", "h_neg", "h_ge_len", "h_eq_len", "method", "dist", "cl0", "cl1", "clneg", "h_nan"])
+        kind = MALFORMED_KINDS[idx % len(MALFORMED_KINDS)]          # every kind in every run
         i = rng.randrange(len(rows))
         nvalid = sum(1 for x in rows[i] if not math.isnan(x))
         hf = False
@@ -429,7 +483,7 @@ def malformed(ctx, n):
             cl = 1.0
         else:
             cl = -0.5
-        check_call(ctx, rows, hs, method, cl, dist, h_float=hf)
+        check_call(ctx, rows, hs, method, cl, dist, h_float=hf, left_out=[])
         ctx.count("malformed:" + kind)
 
 
@@ -493,14 +547,76 @@ def int_dtype_cases(ctx, n):
             return
         k = rng.choice([1, 2, 3])
         ln = rng.randint(2, 10)
-        rows = [[float(rng.randint(-4, 6)) for _ in range(ln)] for _ in range(k)]
+        # unsigned storage (counts, categories; the function takes means and differences from the mean, never differences of cells)
+        dt = rng.choice(["int64", "int32", "uint8", "uint16", "uint64"])
+        lo = 0 if dt.startswith("uint") else -4
+        rows = [[float(rng.randint(lo, 6)) for _ in range(ln)] for _ in range(k)]
         hs = [rng.randint(1, ln - 1) for _ in range(k)]
         method, dist, cl = rng.choice(["HLN", "HLN", "HG"]), rng.choice(["normal", "t"]), rng.choice(LEVELS)
-        dt = rng.choice(["int64", "int32"])
         check_call(ctx, rows, hs, method, cl, dist, transpose=rng.random() < 0.3, kinds=["int_dtype"] * k, dtype=dt)
         if i % 3 == 0:
             relations(ctx, rows, hs, method, cl, dist, dtype=dt)
         ctx.count("dtype:" + dt)
+
+
+def defaults_matrix(ctx, n):
+    """every subset of the optional arguments left out: a left-out argument means the documented default (method="HG",
+    confidence_level=0.95, statistic_distribution="normal"); the written ones take the default or another value"""
+    import itertools
+    rng = ctx.rng
+    keys = sorted(DEFAULTS)
+    for _ in range(n):
+        if not ctx.time_left():
+            return
+        rows, hs, kinds = gen_call(ctx, nseries=rng.choice([2, 3]))
+        for r in range(len(keys) + 1):
+            for left in itertools.combinations(keys, r):
+                method = "HG" if ("method" in left or rng.random() < 0.3) else "HLN"
+                cl = 0.95 if ("confidence_level" in left or rng.random() < 0.3) else rng.choice([0.5, 0.8, 0.9, 0.99])
+                dist = "normal" if ("statistic_distribution" in left or rng.random() < 0.3) else "t"
+                check_call(ctx, rows, hs, method, cl, dist, kinds=kinds, left_out=list(left))
+                ctx.count("defaults_matrix:left_out=%d" % len(left))
+
+
+def infinite_member(ctx, n):
+    """an infinite score difference in one series (HLN; the HG fit of scipy refuses non-finite residuals for the whole call): it is a
+    value, not a missing one -- it counts in timeseries_len, the mean is that infinity, the statistic is not a finite number -- and the
+    other series of the call are not touched by it"""
+    rng = ctx.rng
+    for _ in range(n):
+        if not ctx.time_left():
+            return
+        rows, hs, kinds = gen_call(ctx, nseries=rng.choice([2, 3, 4]))
+        i = rng.randrange(len(rows))
+        pos = [j for j, x in enumerate(rows[i]) if not math.isnan(x)]
+        inf = rng.choice([float("inf"), float("-inf")])
+        rows2 = [list(r) for r in rows]
+        rows2[i][rng.choice(pos)] = inf
+        dist, cl = rng.choice(["normal", "t"]), rng.choice(LEVELS)
+        kw = dm_kwargs("HLN", cl, dist, rand_left_out(rng, "HLN", cl, dist))
+        a = core.call_impl(dm(), build_da(rng, rows, hs), "lead", "h", **kw)
+        b = core.call_impl(dm(), build_da(rng, rows2, hs), "lead", "h", **kw)
+        desc = {"fn": "diebold_mariano", "series": [[None if math.isnan(x) else x for x in r] for r in rows2], "h": list(hs), "method": "HLN",
+                "confidence_level": cl, "statistic_distribution": dist, "infinite_value_in_series": i}
+        ctx.case(desc, True)
+        ctx.count("infinite_member")
+        if a[0] != "ok":
+            continue
+        if b[0] != "ok":
+            ctx.violation("an infinite value in one series makes the HLN call raise", desc, "values", str(b[1])[:200])
+            continue
+        nvalid = sum(1 for x in rows2[i] if not math.isnan(x))
+        got = {k: float(b[1][k].values[i]) for k in ("mean", "dm_test_stat", "timeseries_len")}
+        if int(got["timeseries_len"]) != nvalid or got["mean"] != inf or math.isfinite(got["dm_test_stat"]):
+            ctx.violation("an infinite value is not treated as a value of the series (timeseries_len counts non-NaN values, the mean is that "
+                          "infinity, the statistic is not finite)", desc, {"timeseries_len": nvalid, "mean": inf, "dm_test_stat": "nan"}, got)
+        for j in range(len(rows)):
+            if j == i:
+                continue
+            for k in ("mean", "dm_test_stat", "confidence_gt_0", "ci_upper", "ci_lower", "timeseries_len"):
+                if not close_f(float(a[1][k].values[j]), float(b[1][k].values[j]), rel=1e-12):
+                    ctx.violation("an infinite value in one series changes the result of another series", dict(desc, series_index=j, variable=k),
+                                  float(a[1][k].values[j]), float(b[1][k].values[j]))
 
 
 def run_without_model(ctx):
@@ -518,8 +634,15 @@ def replay(ctx, rec):
     rows = [[float("nan") if x is None else float(x) for x in r] for r in c["series"]]
     hs = [float("nan") if isinstance(h, str) else h for h in c["h"]]
     dt = c.get("dtype") if "int" in str(c.get("dtype")) else None
-    check_call(ctx, rows, hs, c["method"], float(c["confidence_level"]), c["statistic_distribution"],
-               h_float=any(isinstance(h, float) for h in hs), dtype=dt)
+    if "infinite_value_in_series" in c:
+        return run(ctx)
+    # files written before round 4 do not say which arguments were left out: all written, then every default left out
+    outs = [c["arguments_left_out"]] if "arguments_left_out" in c else \
+        [[], [k for k, v in (("method", c["method"]), ("confidence_level", float(c["confidence_level"])),
+                             ("statistic_distribution", c["statistic_distribution"])) if v == DEFAULTS[k]]]
+    for left in outs:
+        check_call(ctx, rows, hs, c["method"], float(c["confidence_level"]), c["statistic_distribution"],
+                   h_float=any(isinstance(h, float) for h in hs), dtype=dt, left_out=left)
     relations(ctx, rows, hs, c["method"], float(c["confidence_level"]), c["statistic_distribution"], dtype=dt)
 
 
@@ -552,6 +675,8 @@ def run(ctx):
         check_call(ctx, rows, hs, method, cl, dist, transpose=rng.random() < 0.3, h_float=rng.random() < 0.2, kinds=kinds, sample=(i < 2))
         if i % 3 == 0:
             relations(ctx, rows, hs, method, cl, dist)
+    defaults_matrix(ctx, ctx.n(5, 60))
+    infinite_member(ctx, ctx.n(40, 600))
     units_cases(ctx, ctx.n(40, 800))
     int_dtype_cases(ctx, ctx.n(40, 800))
     acovf_cases(ctx, ctx.n(100, 2000))
